@@ -48,6 +48,11 @@ check("C18", "exploration",
       "Generated scripts (commands mixed with data lines read from the same input, alias/option changes affecting later lines, multi-line constructs, here-documents, planted syntax errors, a final consumer of the remaining input) are fed as a regular file, through a pipe written by a simulated feeder process in seeded chunk sizes under seeded schedules with preemption at every read, as a -c string and as a command file; oracles: trace/status equality with the generator's expectation in every variant and chunking, and at every `tell` probe the input has been consumed exactly to the end of the running command's last line (lseek offset for files; bytes read from fd 0 according to kernel events for pipes).",
       BASE_NOTE, "deterministic simulation: simulated feeder process with seeded chunking + seeded scheduler; offset invariant from kernel read events", "DESIGN.md section 4 C18")
 
+check("C09", "fault_enumeration",
+      "Generated programs of commands (12 command kinds x all redirection operators x open/closed/internal/wrong-mode descriptors x existing/missing operands x noclobber) run on the simulated OS next to a POSIX redirection-table model that predicts the table the command sees, the results of I/O through the redirected descriptors, the persistent table after exec, statuses and final files. For every program the descriptor-allocation failure positions are ENUMERATED: the fault-free run counts the K allocations and K more runs fail exactly the k-th with EMFILE; plus RLIMIT_NOFILE soft limits 3..16. Under faults the invariants that must never be relaxed are checked: the shell's descriptor table after every non-exec command equals the table before it, no descriptor >= 10 survives an exec, descriptors >= 10 are exactly the close-on-exec ones, the shell terminates.",
+      BASE_NOTE + " Failure positions are complete per program; programs are sampled. stderr content is not modelled.",
+      "deterministic simulation with enumerated fault injection (every fd-allocation failure position per program) + reference redirection-table model", "DESIGN.md section 4 C09")
+
 import os
 selected = os.environ.get("MANIFEST_ONLY")
 manifest = {
